@@ -19,10 +19,14 @@ RULE = ("random meshes of all six cell kinds (rv.gen.meshes: Delaunay/jittered/t
         "holes, renumbered, admissible local orders; second-order classes straight and curved) x random tag sets "
         "(subdomains, boundaries incl. interior facets and OrientedBoundary; int32/int64, unsorted) x cell subsets "
         "given as arrays/predicates/names/lists/tuples/sets x one operation or a sequence of 1-5 operations out of "
-        "restrict, remove_elements, +, @ (2 and 3 meshes, mixed classes, partially coincident vertices), "
+        "restrict, remove_elements, +, @ (2 and 3 meshes, mixed classes, partially coincident vertices, interface "
+        "vertices that agree up to a few ulp only, exploded parts in which every cell owns its vertices, tagged "
+        "operands), "
         "to_meshtri (both styles, with cellwise data), to_meshtet (hex, prism), extrusion by *, mirrored, translated, "
-        "scaled, morphed, oriented, smoothed, trace, remove_unused_nodes, remove_duplicate_nodes, with_boundaries/"
-        "with_subdomains/with_defaults; distinct key = (operation, mesh class, tag kinds, argument form); "
+        "scaled, morphed, oriented, smoothed, trace, remove_unused_nodes, remove_duplicate_nodes (partially duplicated "
+        "and fully exploded inputs, oriented tags on the copy of the owner cell and on both copies), with_boundaries/"
+        "with_subdomains/with_defaults; inputs with unused vertices (meshes returned by @, inserted nodes) continued "
+        "through restrict/trace/splits/extrusion/transforms; distinct key = (operation, mesh class, tag kinds, argument form); "
         "non-trivial iff some vertex becomes unused / is merged, some tagged entity is removed, the map is not the "
         "identity, or the mesh has >= 2 cells sharing entities")
 TRACK = ["skfem.mesh.mesh:Mesh.restrict", "skfem.mesh.mesh:Mesh._reix", "skfem.mesh.mesh:Mesh.remove_elements",
@@ -39,13 +43,23 @@ REQUIRED_MONITORS = ["result-valid", "cells-are-expected-point-sets", "measure-e
                      "index-map-new-to-old", "shared-vertex-structure", "subdomains-carried", "boundaries-carried",
                      "removed-tags-vanish", "split-children-tile-parent", "split-conforming", "extrusion-is-product",
                      "tags-assigned", "smoothing-averages-neighbours", "orientation-positive",
-                     "trace-cells-are-facets"]
+                     "trace-cells-are-facets", "orientation-carried"]
 REQUIRED_REACH = ["op:restrict", "op:remove_elements", "op:add", "op:matmul", "matmul-3-meshes", "op:to_meshtri",
                   "op:to_meshtri-x", "op:to_meshtet:hex", "op:to_meshtet:wedge", "op:extrude:tri", "op:extrude:line",
                   "op:mirrored", "op:translated", "op:scaled", "op:morphed", "op:oriented", "op:smoothed", "op:trace",
                   "op:remove_unused_nodes", "op:remove_duplicate_nodes", "op:with_boundaries", "op:with_subdomains",
                   "vertex-becomes-unused", "tagged-entity-removed", "join-partially-coincident",
-                  "coincident-vertices-merged", "sequence-of-3-or-more", "oriented-flips-some-cells"]
+                  "coincident-vertices-merged", "sequence-of-3-or-more", "oriented-flips-some-cells",
+                  "oriented-tag-judged:remove_duplicate_nodes", "oriented-tag-judged:remove_unused_nodes",
+                  "oriented-tag-identical-judged", "join-nearly-coincident", "join-nearly-coincident:ulp-b",
+                  "join-nearly-coincident:translate-back", "remove-duplicates-of-exploded-mesh",
+                  "three-or-more-coincident-copies", "merged-facet-listed-from-both-sides",
+                  "oriented-tag-lists-a-facet-from-both-sides", "add-exploded-parts", "matmul-exploded-parts",
+                  "tagged-operands:add", "tagged-operands:matmul", "tagged-operands:extrude",
+                  "tagged-operands:to_meshtet", "input-with-unused-vertices:from-matmul",
+                  "input-with-unused-vertices:inserted", "unused-input:restrict", "unused-input:trace",
+                  "unused-input:to_meshtri", "unused-input:to_meshtet", "unused-input:extrude",
+                  "tags-judged-under-second-order-finding", "skeleton-judged-under-second-order-finding"]
 ASSUMPTIONS = [
     "a facet index designates the vertex set mesh.facets[:, i] of the mesh that carries the tag (facet tables are "
     "judged by C11)",
@@ -53,10 +67,14 @@ ASSUMPTIONS = [
     "conformity of to_meshtet is demanded only for local vertex orders produced by the library's own constructors "
     "(init_tensor / refined / extrusion); for arbitrary admissible local orders crossed diagonals are counted, "
     "not judged",
-    "orientation flags of OrientedBoundary tags are not demanded to survive surgery (observed and counted)",
+    "orientation flags of OrientedBoundary tags are not demanded to survive operations that renumber facets "
+    "(a plain array is accepted and counted); where the result tag IS an OrientedBoundary its flags are judged: "
+    "entry (f, flag) designates the facet f seen from the cell mesh.f2t[flag, f] of the mesh that carries the tag "
+    "(f2t is judged by C11); coordinate maps, smoothing and tagging must hand the two arrays over unchanged",
     "empty cell subsets and boolean masks are not generated (normalize_elements documents index arrays)",
 ]
 
+REPORT_ONLY = O.REPORT_ONLY      # mechanism keys of suspected library defects that are counted, not reported
 SECOND = ("tri", "quad", "tet", "hex")
 
 
@@ -104,7 +122,9 @@ def fam_cleanup(ctx, k):
     if k % 2 == 0:
         O.op_remove_unused(ctx, rng, st)
     else:
-        O.op_remove_duplicates(ctx, rng, st)
+        if k % 4 == 3 and st.nt > 150:
+            raise Skip("mesh-too-large-to-explode")
+        O.op_remove_duplicates(ctx, rng, st, explode=(k % 4 == 3))
 
 
 def fam_add(bits):
@@ -142,10 +162,30 @@ def fam_add(bits):
             # small physical scale: the absolute rounding of `+` is large relative to the mesh
             s = 2.0 ** -int(rng.integers(12, 28))
             parts = [St(type(p_.mesh)(np.asarray(p_.mesh.p) * s, np.asarray(p_.mesh.t)), kind, 1) for p_ in parts]
+        if k % 5 == 4 and all(p_.nt <= 150 for p_ in parts):
+            # every cell owns its vertices (>= 3 coincident copies inside one operand and across operands)
+            parts = [O.exploded(rng, p_, tags=False)[0] for p_ in parts]
+            ctx.reached("join-exploded-parts")
+            ctx.reached("add-exploded-parts")
+        if k % 2 == 0:
+            # tagged operands (one common and several private names): a result tag, if any, designates the images
+            parts = [O.operand_tags(rng, p_, "" if j == 0 else f"_{j}") for j, p_ in enumerate(parts)]
         acc = O.op_add(ctx, rng, parts[0], parts[1])
         if acc is not None and nparts == 3:
             O.op_add(ctx, rng, acc, parts[2])
     return fn
+
+
+def fam_add_near(ctx, k):
+    """`+` of parts whose interface vertices agree up to rounding only."""
+    rng = ctx.rng()
+    kind = G.KINDS[k % 6]
+    st = input_state(ctx, rng, kind, 0, second_every=0, tags=False)
+    parts = O.split_parts(rng, st, 2, 8)
+    if parts is None:
+        raise Skip("too-few-cells-or-not-dyadic")
+    how = ("ulp-b", "translate-back", "ulp-both")[(k // 6) % 3]
+    O.op_add_near(ctx, rng, parts[0], parts[1], how)
 
 
 def _quads_as_triangles(st):
@@ -181,7 +221,84 @@ def fam_matmul(ctx, k):
                                              (1, 3, 4, 5))])
         parts[j] = St(skfem.MeshTet1(np.asarray(parts[j].mesh.p).copy(), tt), "tet", 1)
     form = "mesh" if nparts == 2 and k % 4 < 2 else ("rlist" if k % 4 == 3 else "list")
+    if k % 5 == 3 and all(p_.nt <= 150 for p_ in parts):
+        parts = [O.exploded(rng, p_, tags=False)[0] for p_ in parts]
+        ctx.reached("join-exploded-parts")
+        ctx.reached("matmul-exploded-parts")
+    if k % 2 == 1:
+        parts = [O.operand_tags(rng, p_, "" if j == 0 else f"_{j}") for j, p_ in enumerate(parts)]
     O.op_matmul(ctx, rng, parts, form)
+
+
+def fam_unused(ctx, k):
+    """First-order inputs that carry vertices belonging to no cell (one of the meshes returned by `@`, or nodes
+    inserted by the harness), continued through the operations: restrict must drop them and return the right
+    vertex map, the others keep them (Mesh.is_valid() is False for such meshes by definition: own validity with
+    unused nodes allowed).  Smoothing is excluded (0/0 at a vertex without neighbours is no defect)."""
+    rng = ctx.rng()
+    kind = G.KINDS[k % 6]
+    j = k // 6
+    ops = ["restrict", "remove_elements", "transform", "remove_unused"]
+    if kind in ("tri", "quad", "tet", "hex"):
+        ops.append("trace")
+    if kind == "quad":
+        ops += ["to_meshtri", "to_meshtri-x"]
+    if kind in ("hex", "wedge"):
+        ops.append("to_meshtet")
+    if kind in ("tri", "line"):
+        ops.append("extrude")
+    if kind in ("line", "tri", "tet"):
+        ops.append("oriented")
+    op = ops[j % len(ops)]
+    from_matmul = (j // len(ops)) % 2 == 0
+    if from_matmul:
+        st = input_state(ctx, rng, kind, 0, second_every=0, tags=False)
+        if st.nt > 150:
+            raise Skip("mesh-too-large")
+        parts = O.split_parts(rng, st, 2 + j % 2, None)
+        if parts is None:
+            raise Skip("too-few-cells")
+        outs = O.op_matmul(ctx, rng, parts, "list")
+        if not outs:
+            return
+        s = O.operand_tags(rng, outs[int(rng.integers(len(outs)))])
+    else:
+        st = input_state(ctx, rng, kind, j, second_every=0)
+        if st.nt > 150:
+            raise Skip("mesh-too-large")
+        s, _ = O.with_unused_nodes(rng, st)
+    if not O.has_unused(s):
+        ctx.drop("no-unused-vertex-in-the-input")
+        return
+    ctx.reached("input-with-unused-vertices")
+    ctx.reached("input-with-unused-vertices:" + ("from-matmul" if from_matmul else "inserted"))
+    ctx.reached("unused-input:" + op.split("-")[0])
+    if op in ("restrict", "remove_elements"):
+        if s.nt < 2:
+            raise Skip("single-cell")
+        out = O.op_restrict(ctx, rng, s, remove=(op == "remove_elements"))
+        if out is not None and out is not s:
+            ctx.check("result-valid", not O.has_unused(out), mech=f"{op}:unused-vertices-of-the-input-kept:{kind}",
+                      cls=s.cls)
+    elif op == "transform":
+        out = O.op_transform(ctx, rng, s)
+    elif op == "remove_unused":
+        out = O.op_remove_unused(ctx, rng, s)
+    elif op == "trace":
+        out = O.op_trace(ctx, rng, s)
+    elif op.startswith("to_meshtri"):
+        out = O.op_to_meshtri(ctx, rng, s, style=("x" if op.endswith("x") else None))
+    elif op == "to_meshtet":
+        out = O.op_to_meshtet(ctx, rng, s, conform_expected=False)
+    elif op == "extrude":
+        z = np.unique(G.dyadic(rng, int(rng.integers(2, 4)), bits=4))
+        z = z if z.size >= 2 else np.array([0.0, 1.0])
+        out = O.op_extrude(ctx, rng, s, line_of(z))
+    else:
+        out = O.op_oriented(ctx, rng, s)
+    if out is not None and out.nt > 1 and k % 2 == 0:
+        O.op_restrict(ctx, rng, out)
+    ctx.nontrivial("unused-input", kind, op, from_matmul)
 
 
 def fam_split_quad(ctx, k):
@@ -214,9 +331,13 @@ def fam_split_3d(ctx, k):
             st = O.op_transform(ctx, rng, st, "morphed-affine") or st
         if rng.random() < 0.5 and st.nt > 2:
             st = O.op_restrict(ctx, rng, st, remove=False) or st
+        if k % 8 >= 4:
+            st = O.operand_tags(rng, st)
         O.op_to_meshtet(ctx, rng, st, conform_expected=True)
     elif which == 1:     # arbitrary admissible local orders
         st = St(G.hex_mesh(rng, renum=True).mesh, "hex", 1)
+        if k % 8 >= 4:
+            st = O.operand_tags(rng, st)
         O.op_to_meshtet(ctx, rng, st, conform_expected=False)
     elif which == 2:     # library-ordered prisms: extrusion of a triangle mesh
         tp, tt, _ = G.tri_mesh(rng, n=int(rng.integers(4, 12)), renum=bool(k % 8 == 2), holes=False, build=False)
@@ -226,9 +347,13 @@ def fam_split_3d(ctx, k):
         line = line_of(z)
         w = O.op_extrude(ctx, rng, base, line)
         if w is not None:
+            if k % 8 >= 4:
+                w = O.operand_tags(rng, w)
             O.op_to_meshtet(ctx, rng, w, conform_expected=True)
     else:
         st = St(G.wedge_mesh(rng, renum=True).mesh, "wedge", 1)
+        if k % 8 >= 4:
+            st = O.operand_tags(rng, st)
         O.op_to_meshtet(ctx, rng, st, conform_expected=False)
 
 
@@ -237,15 +362,20 @@ def fam_extrude(ctx, k):
     import skfem
     line = St(G.line_mesh(rng, style=str(rng.choice(["sorted", "unsorted", "reversed", "graded", "components"]))).mesh,
               "line", 1)
+    tag = (k // 3) % 2 == 1
+    if tag:
+        line = O.operand_tags(rng, line, "_l")
     if k % 3 == 2:
         base = St(G.line_mesh(rng).mesh, "line", 1)
-        O.op_extrude(ctx, rng, base, line)
+        O.op_extrude(ctx, rng, O.operand_tags(rng, base) if tag else base, line)
         return
     mc = G.tri_mesh(rng, n=int(rng.integers(5, 16)), renum=bool(k % 2))
     if k % 9 == 0:
         base = St(G.second_order(rng, mc, curved=False).mesh, "tri", 2)
     else:
         base = St(mc.mesh, "tri", 1)
+        if tag:
+            base = O.operand_tags(rng, base)
     O.op_extrude(ctx, rng, base, line, swap=bool(k % 4 == 1))
 
 
@@ -396,6 +526,7 @@ def fam_directed(ctx, k):
             st = tagged_state(rng, G.MeshCase(m, kind, 1, {}))
             O.op_restrict(ctx, rng, st)
             O.op_remove_duplicates(ctx, rng, st)
+            O.op_remove_duplicates(ctx, rng, st, explode=True)
     elif k == 4:
         q = skfem.MeshQuad().refined(2)
         st = tagged_state(rng, G.MeshCase(q, "quad", 1, {}))
@@ -480,11 +611,13 @@ def fam_docs(ctx, k):
 
 QB = {"quick": 75, "thorough": 540}
 QUICK = {"restrict-line": 40, "restrict-tri": 90, "restrict-quad": 70, "restrict-tet": 40, "restrict-hex": 50,
-         "restrict-wedge": 40, "cleanup": 150, "join-add": 150, "join-add-fine-coordinates": 40, "join-matmul": 150,
+         "restrict-wedge": 40, "cleanup": 150, "join-add": 150, "join-add-fine-coordinates": 40, "join-add-nearly-coincident": 90,
+         "join-matmul": 150, "inputs-with-unused-vertices": 150,
          "split-quad": 100, "split-3d": 60, "extrude": 70, "transform": 240, "trace": 70, "tagging": 100,
          "sequences": 250}
 THOROUGH_FACTOR = 40
-_FNS = {"cleanup": fam_cleanup, "join-add": fam_add(8), "join-add-fine-coordinates": fam_add(None),
+_FNS = {"cleanup": fam_cleanup, "join-add": fam_add(8), "join-add-nearly-coincident": fam_add_near,
+        "inputs-with-unused-vertices": fam_unused, "join-add-fine-coordinates": fam_add(None),
         "join-matmul": fam_matmul, "split-quad": fam_split_quad, "split-3d": fam_split_3d, "extrude": fam_extrude,
         "transform": fam_transform, "trace": fam_trace, "tagging": fam_tagging, "sequences": fam_chains}
 _FNS.update({"restrict-" + kd: fam_restrict(kd) for kd in G.KINDS})
